@@ -3,9 +3,12 @@
    0  split_sync      [0; v...]                                   -> concatenated 16-column rows
    1  fronts 1-D      [1; step; rstep; fstep; mode; x...]         -> (mode 0) fronts ind, sign, rises, falls
                                                                      (mode 1) rises, falls with analog=True
+                                                                     (mode 2/3) bool / uint8 container: ind, sign, rises, falls | -7 (TypeError)
    2  fronts 2-D      [2; axis; step; rstep; fstep; mode; nr; nc; data...]  (row-major data)
-   4  read_sync       [4; typ; c0; c1; c2; c3; ntr; start; stop; one; thr; gain;
-                       hasfloor; nfl; floors...; nrows; data...]  -> 0 (exception) | 1 :: rows
+   4  read_sync       [4; typ; c0; c1; c2; c3; ntr; start; stop; one; thr; gain; usefloor;
+                       thr_default; nrows; data...]
+                      -> read_sync, read_sync_digital, read_sync_analog (volts * one), Reader.read(...)[1];
+                         each: 0 (exception) | 1 :: rows   (analog: 2 = returns None)
    5  TTL round trip  [5; ns; (init; nev; evs...) x 16]            -> words, then per line ind, sign
 *)
 From Coq Require Import ZArith List Bool.
@@ -33,6 +36,9 @@ Fixpoint dec_lines (n : nat) (l : list Z) : list (Z * list Z) :=
            end
   end.
 
+Definition enc_rows (o : option (list (list Z))) : list Z :=
+  match o with None => [0] | Some rows => 1 :: enc_list enc_zlist rows end.
+
 Definition run (inp : list Z) : list Z :=
   match inp with
   | 0 :: vs => concat (split_sync vs)
@@ -40,25 +46,29 @@ Definition run (inp : list Z) : list Z :=
       if mode =? 0 then
         let '(ind, sg) := fronts1 step x in
         enc_zlist ind ++ enc_zlist sg ++ enc_zlist (rises1 rstep false x) ++ enc_zlist (falls1 fstep false x)
-      else enc_zlist (rises1 rstep true x) ++ enc_zlist (falls1 fstep true x)
+      else if mode =? 1 then enc_zlist (rises1 rstep true x) ++ enc_zlist (falls1 fstep true x)
+      else (* mode 2 = bool input, mode 3 = uint8 input *)
+        let kind := mode - 1 in
+        let '(ind, sg) := fronts1_c kind step x in
+        enc_zlist ind ++ enc_zlist sg ++ enc_zlist (rises1_c kind rstep x)
+        ++ match falls1_c kind fstep x with None => [-7] | Some l => enc_zlist l end
   | 2 :: axis :: step :: rstep :: fstep :: mode :: nr :: nc :: data =>
       let x := chunks (Z.to_nat nr) (Z.to_nat nc) data in
       if mode =? 0 then
         enc_list enc_triple (fronts2 axis step x) ++ enc_list enc_pair (rises2 axis rstep false x)
         ++ enc_list enc_pair (falls2 axis fstep false x)
       else enc_list enc_pair (rises2 axis rstep true x) ++ enc_list enc_pair (falls2 axis fstep true x)
-  | 4 :: typ :: c0 :: c1 :: c2 :: c3 :: ntr :: start :: stop :: one :: thr :: gain :: hasfloor :: rest =>
-      let '(fl, rest') := dec_zlist rest in
-      match rest' with
-      | nrows :: data =>
-          let raw := chunks (Z.to_nat nrows) (Z.to_nat ntr) data in
-          match read_sync typ ntr c0 c1 c2 c3 start stop one thr gain
-                          (if hasfloor =? 1 then Some fl else None) raw with
-          | None => [0]
-          | Some rows => 1 :: enc_list enc_zlist rows
-          end
-      | [] => [-998]
-      end
+  | 4 :: typ :: c0 :: c1 :: c2 :: c3 :: ntr :: start :: stop :: one :: thr :: gain :: usefloor
+      :: thr_default :: nrows :: data =>
+      let raw := chunks (Z.to_nat nrows) (Z.to_nat ntr) data in
+      enc_rows (read_sync typ ntr c0 c1 c2 c3 start stop one thr gain (usefloor =? 1) raw)
+      ++ enc_rows (read_sync_digital typ ntr c0 c1 c2 c3 start stop raw)
+      ++ match read_sync_analog typ ntr c0 c1 c2 c3 start stop gain raw with
+         | None => [0]
+         | Some None => [2]
+         | Some (Some m) => 1 :: enc_list enc_zlist m
+         end
+      ++ enc_rows (reader_read_sync typ ntr c0 c1 c2 c3 start stop one thr_default gain raw)
   | 5 :: ns :: rest =>
       let lines := dec_lines 16 rest in
       let words := map encode_word (render (Z.to_nat ns) lines) in
